@@ -53,18 +53,21 @@ void run_ops(Ctx & c, std::vector<Op> & ops, int64_t a, int64_t b, i128 e)
   }
 void j_add(Ctx & c, int64_t a, int64_t b, int64_t)
   {
+  if(!model_finite(a) || !model_finite(b)) return; // the statement quantifies over finite operands
   i128 e = (i128)a + b; c01_strata(c, a, b, e); run_ops(c, ADD, a, b, e);
   if(a > 0 && b > 0) { c.stratum("guard-pp"); run_ops(c, ADD_PP, a, b, e); }
   if(a < 0 && b < 0) { c.stratum("guard-nn"); run_ops(c, ADD_NN, a, b, e); }
   }
 void j_sub(Ctx & c, int64_t a, int64_t b, int64_t)
   {
+  if(!model_finite(a) || !model_finite(b)) return;
   i128 e = (i128)a - b; c01_strata(c, a, b, e); run_ops(c, SUB, a, b, e);
   if(a > 0 && b < 0) { c.stratum("guard-pn"); run_ops(c, SUB_PN, a, b, e); }
   if(a < 0 && b > 0) { c.stratum("guard-np"); run_ops(c, SUB_NP, a, b, e); }
   }
 void j_const(Ctx & c, int64_t a, int64_t which, int64_t)
   {
+  if(!model_finite(a)) return;
   ConstShape & s = CONSTS[(size_t)which % CONSTS.size()];
   struct { Fn * f; i128 e; } v[] = { { &s.add_c, (i128)a + s.K }, { &s.add_cl, (i128)s.K + a }, { &s.sub_c, (i128)a - s.K }, { &s.sub_cl, (i128)s.K - a }, { &s.addeq_c, (i128)a + s.K }, { &s.subeq_c, (i128)a - s.K } };
   c.stratum("const-operand");
@@ -81,7 +84,7 @@ void j_const(Ctx & c, int64_t a, int64_t which, int64_t)
   }
 void j_accum(Ctx & c, int64_t a, int64_t n, int64_t)
   {
-  if(n < 0 || n > 64) return;
+  if(n < 0 || n > 64 || !model_finite(a)) return;
   i128 before = (i128)a * n, e = (i128)a * (n + 1);
   if(before > RAW_MAX || before < RAW_LOWEST) return; // only the last step may leave the range
   c.stratum("accumulate"); c01_strata(c, a, n, e);
@@ -150,7 +153,7 @@ void c01_run(Ctx & c)
     {
     int64_t cnt = c.rng.range(0, 64); int64_t a;
     if(c.rng.next() & 1) a = c.rng.logu();
-    else { a = (int64_t)((i128)RAW_MAX / (cnt + 1)) + c.rng.range(-3, 3); if(c.rng.next() & 1) a = -a; }
+    else { a = clamp_finite((i128)RAW_MAX / (cnt + 1) + c.rng.range(-3, 3)); if(c.rng.next() & 1) a = -a; }
     c.run_check(ACC, a, cnt);
     }
   }
@@ -169,6 +172,7 @@ struct MulInt { Fn fT, Tf, eq; };
 MulInt MULI[8];
 void j_mul(Ctx & c, int64_t a, int64_t b, int64_t)
   {
+  if(!model_finite(a) || !model_finite(b)) return;
   i128 P = (i128)a * b;
   bool fits64 = P >= -P63 && P < P63;
   bool outside = P > (i128)RAW_MAX * 65536 || P < (i128)RAW_LOWEST * 65536;
@@ -194,6 +198,7 @@ void j_mul(Ctx & c, int64_t a, int64_t b, int64_t)
   }
 template<int TI> void j_mul_int(Ctx & c, int64_t a, int64_t nraw, int64_t)
   {
+  if(!model_finite(a)) return;
   const IntType & t = INT_TYPES[TI];
   i128 nv = int_value(t, nraw), E = (i128)a * nv;
   bool in = E >= RAW_LOWEST && E <= RAW_MAX;
@@ -285,6 +290,7 @@ struct DivInt { Fn fT, eq; };
 DivInt DIVI[8];
 void j_div(Ctx & c, int64_t a, int64_t b, int64_t)
   {
+  if(!model_finite(a) || !model_finite(b)) return;
   i128 aa = a < 0 ? -(i128)a : (i128)a;
   bool small = aa < ((i128)1 << 47);
   c.stratum(b == 0 ? "zero-divisor" : (small ? "dividend<2^31" : "dividend>=2^31"));
@@ -305,6 +311,7 @@ void j_div(Ctx & c, int64_t a, int64_t b, int64_t)
   }
 template<int TI> void j_div_int(Ctx & c, int64_t a, int64_t nraw, int64_t)
   {
+  if(!model_finite(a)) return;
   const IntType & t = INT_TYPES[TI];
   i128 nv = int_value(t, nraw);
   c.stratum(nv == 0 ? "scalar-zero-divisor" : "scalar-divisor");
@@ -494,7 +501,7 @@ Registrar R_C15(&P_C15);
 Fn SHL, SHR, AND;
 void j_shift(Ctx & c, int64_t x, int64_t r, int64_t)
   {
-  if(r > 63 || r < (int64_t)INT32_MIN) return;
+  if(r > 63 || r < (int64_t)INT32_MIN || !model_finite(x)) return;
   c.stratum(r < 0 ? "negative-count" : (r == 0 ? "count=0" : (r == 63 ? "count=63" : "count-1..62")));
   for(size_t ci = 0; ci < g_cfgs.size(); ++ci)
     {
